@@ -100,6 +100,18 @@ def classify(rc, out, err):
     return "DOther"
 
 
+def has_diagnostic(rc, out, err):
+    """the run said what happened in shoot's own voice: a cross-marked fatal line for exit 1, the usage text (with the
+    flag package's error line where there is one) for exit 2, a success / nothing-generated / usage / version line for 0"""
+    if rc == 1:
+        return any("❌" in l for l in err.splitlines())
+    if rc == 2:
+        return bool(re.search(r"Usage: shoot <subcommand>|Usage of (new|enum|rest|map):", err))
+    if rc == 0:
+        return bool(re.search(r"go generate successfully|nothing generated|Usage", err) or re.match(r"^v\d+\.\d+", out.strip()))
+    return False
+
+
 def snapshot(d):
     """{relative name: digest} for every entry below d (files by content, directories and symlinks by kind)"""
     res = {}
@@ -144,21 +156,42 @@ class World:
     def case_dir(self, case, cid):
         return (self.mod if case.inmodule else self.nomod) / cid
 
-    def execute(self, case, cid, timeout=SHOOT_TIMEOUT, keep=False):
-        """render, run shoot, observe; returns the observation dict"""
+    def execute(self, case, cid, timeout=SHOOT_TIMEOUT, keep=False, fault=None):
+        """render, run shoot, observe; returns the observation dict.  fault: None | 'immutable' | 'full'"""
         d = self.case_dir(case, cid)
         if d.exists():
             shutil.rmtree(d)
         layout = case.layout("c18mod/" + cid)
-        write_layout(d, layout)
-        before = snapshot(d)
-        cwd = d / "p" if case.cwd_is_pkg else d
-        r = l2.run_shoot(self.shoot, cwd, case.args, timeout=timeout)
-        after = snapshot(d)
+        undo = []
+        try:
+            if fault == "full":
+                # the package directory is a tiny tmpfs that is filled up after the sources were written
+                (d / "p").mkdir(parents=True)
+                lib.sh(["mount", "-t", "tmpfs", "-o", "size=64k", "tmpfs", str(d / "p")], check=True)
+                undo.append(["umount", "-l", str(d / "p")])
+            write_layout(d, layout)
+            if fault == "full":
+                try:
+                    with open(d / "p" / "zz_fill.bin", "wb") as fh:
+                        while True:
+                            fh.write(b"x" * 4096)
+                            fh.flush()
+                except OSError:
+                    pass
+            if fault == "immutable":
+                lib.sh(["chattr", "+i", str(d / "p")], check=True)
+                undo.append(["chattr", "-i", str(d / "p")])
+            before = snapshot(d)
+            cwd = d / "p" if case.cwd_is_pkg else d
+            r = l2.run_shoot(self.shoot, cwd, case.args, timeout=timeout)
+            after = snapshot(d)
+        finally:
+            for u in reversed(undo):
+                lib.sh(u)
         changed = sorted(n for n in set(before) | set(after) if before.get(n) != after.get(n))
         files = sorted((n[2:] if n.startswith("p/") else "../" + n) for n in changed)
         o = {"rc": r["rc"], "diag": classify(r["rc"], r["out"], r["err"]) if not r["timed_out"] else "DOther",
-             "hasdiag": bool((r["err"] + r["out"]).strip()) and not r["timed_out"], "panic": r["panicked"],
+             "hasdiag": has_diagnostic(r["rc"], r["out"], r["err"]) and not r["timed_out"], "panic": r["panicked"],
              "timeout": r["timed_out"], "changed": bool(changed), "files": files,
              "stderr_tail": r["err"][-600:], "stdout_tail": r["out"][-200:], "wall": round(r["wall"], 3)}
         if not keep:
@@ -175,6 +208,8 @@ def coq_obs(o):
 def coq_case(case, o):
     if case.opaque is not None:
         return "{| c_kind := KOpaque; c_obs := %s |}" % coq_obs(o)
+    if getattr(case, "fault_at", None) is not None:
+        return "{| c_kind := KFault %s %d; c_obs := %s |}" % (case.coq_input(), case.fault_at, coq_obs(o))
     return ("{| c_kind := KModel %s %s; c_obs := %s |}"
             % (case.coq_input(), failgen.clist(failgen.cs(u) for u in case.uncertain), coq_obs(o)))
 
@@ -358,9 +393,23 @@ def witnesses():
         _case("new", ["new", "-type=A"], [_file("a.go", [_struct("A", [F.Field([], F.tstar(F.tid("B"))), F.Field(["x"], F.tid("int"))]),
                                                          _struct("B", [F.Field([], F.tstar(F.tid("A"))), F.Field(["y"], F.tid("int"))])])]),
     ]
+    # the same class through an instantiated generic type and through an imported package
+    w["K_ctor_self_embed"].append(
+        _case("new", ["new", "-type=Node"],
+              [_file("a.go", [("type", [F.TSpec("Node", ("struct", [F.Field([], F.tstar(("gen", "Node", F.tid("T")))), F.Field(["v"], F.tid("T"))]),
+                                                tparams="[T any]")])])]))
+    loop = [F.TSpec("Loop", ("struct", [F.Field([], F.tstar(F.tid("Loop"))), F.Field(["V"], F.tid("int"))]))]
+    c = _case("new", ["new", "-type=Holder"], [_file("a.go", [_struct("Holder", [F.Field([], F.tsel("ext", "Loop")), F.Field(["id"], F.tid("int"))])])])
+    c.foreign["ext"] = loop
+    w["K_ctor_self_embed"].append(c)
     w["K_map_self_embed"] = [
         _case("map", MAP_ARGS, [_file("s.go", [_struct("T", [F.Field([], F.tstar(F.tid("T"))), F.Field(["ID"], F.tid("int"))])])], DEST_T),
     ]
+    c = _case("map", ["map", "-path=../dest", "-type=Holder"],
+              [_file("s.go", [_struct("Holder", [F.Field([], F.tstar(F.tsel("ext", "Loop"))), F.Field(["ID"], F.tid("int"))])])],
+              [_file("d.go", [_struct("Holder", [F.Field(["ID"], F.tid("int"))])], pkg="dest", imports=())])
+    c.foreign["ext"] = [F.TSpec("Loop", ("struct", [F.Field([], F.tstar(F.tid("Loop"))), F.Field(["V"], F.tid("int"))]))]
+    w["K_map_self_embed"].append(c)
     w["K_map_unnamed_names"] = [
         _case("map", MAP_ARGS, [_file("s.go", [_struct("T", T_ID), _fn("toDest", RECV_PT, [F.Param([], F.tstar(F.tsel("dest", "T")))])])], DEST_T),
         _case("map", MAP_ARGS, [_file("s.go", [_struct("T", T_ID), _fn("fromDest", [F.Param([], F.tstar(F.tid("T")))],
@@ -473,8 +522,8 @@ def finding_handlers(wres):
 SITES = {
     "cmd/shoot/main.go:50": "DUsageNoArgs", "cmd/shoot/main.go:59": "DVersion", "cmd/shoot/main.go:70": "DUsageUnknownSub",
     "cmd/shoot/main.go:94": "DCleanError (witness K_clean_unreadable_after_write)",
-    "cmd/shoot/main.go:107": "DCreateTemp: I/O fault, modelled (fault oracle), not exercised",
-    "cmd/shoot/main.go:113": "DWriteTemp: I/O fault, modelled (fault oracle), not exercised",
+    "cmd/shoot/main.go:107": "DCreateTemp (fault case: immutable package directory)",
+    "cmd/shoot/main.go:113": "DWriteTemp (fault case: full file system)",
     "cmd/shoot/main.go:120": "DRename (witness K_rename_fail_after_write)",
     "internal/shoot/generatorbase.go:51": "unreachable: the four embedded templates parse",
     "internal/shoot/generatorbase.go:118": "DUsageNoSubArgs", "internal/shoot/generatorbase.go:125": "DUsageNoTypeNoFile",
@@ -555,6 +604,14 @@ def body(run, proof_ok):
 
     n_typed = 5000 if run.thorough() else 330
     n_opaque = 2000 if run.thorough() else 110
+    fcases, fobs, fault_note = run_fault_cases(run, world)
+    fmm = coq_mismatches(run, "c18fault", [coq_case(c, o) for c, o in zip(fcases, fobs)]) if fcases else []
+    for idx, v in fmm:
+        rep = describe(fcases[idx], fobs[idx], fcases[idx].layout("c18mod/f%03d" % idx))
+        rep["kind"] = "property-fails-on-implementation" if v == 2 else "correspondence-broken"
+        rep["fault"] = fcases[idx].labels
+        rep["correspondence"] = "L2:C18:write phase under an injected I/O fault vs run id_order (fail_at k)"
+        run.violation(rep, no_input=(v != 2))
     suite = coverage_suite()
     cases = [c for _, c in suite]
     family = result_list_cases(run.rng, None if run.thorough() else 44)
@@ -576,7 +633,15 @@ def body(run, proof_ok):
     # a mismatch must persist when the case is run again alone (a loaded machine can hit the timeout)
     confirmed = []
     unreproduced = []
-    for idx, v in mism[:12]:
+    # one representative per (subcommand, observed class) first, so that a flood of one class cannot hide another
+    seen_cls, ordered_mism = set(), []
+    for idx, v in mism:
+        k = (cases[idx].sub, obs[idx]["diag"], v)
+        if k not in seen_cls:
+            seen_cls.add(k)
+            ordered_mism.append((idx, v))
+    ordered_mism += [m for m in mism if m not in ordered_mism]
+    for idx, v in ordered_mism[:16]:
         o2, l2_ = world.execute(cases[idx], "re%04d" % idx, timeout=3 * SHOOT_TIMEOUT)
         m2 = coq_mismatches(run, "c18re%d" % idx, [coq_case(cases[idx], o2)])
         if m2:
@@ -584,7 +649,7 @@ def body(run, proof_ok):
         else:
             unreproduced.append({"args": cases[idx].args, "first": {k: obs[idx][k] for k in ("rc", "diag", "timeout", "wall")},
                                  "again": {k: o2[k] for k in ("rc", "diag", "timeout", "wall")}})
-    for idx, v, o in confirmed[:5]:
+    for idx, v, o in confirmed[:8]:
         c = cases[idx]
         rep = describe(c, o, layouts[idx])
         rep["kind"] = "property-fails-on-implementation" if v == 2 else "correspondence-broken"
@@ -632,7 +697,11 @@ def body(run, proof_ok):
         "typed_cases": len(typed), "typed_cases_with_uncertain_render": sum(1 for c, _ in typed if c.uncertain),
         "opaque_cases": len(opaque),
         "cases_inside_theorem_guards": {"with_model_input": GUARDS[0], "input_ok (C18_always_a_deliberate_exit_decidable)": GUARDS[1],
-                                        "files_only extras (C18_nonzero_exit_changes_nothing)": GUARDS[2]},
+                                        "state_ok (C18_nonzero_exit_changes_nothing)": GUARDS[2]},
+        "io_fault_cases": {"run": len(fcases), "mismatches": len(fmm), "not_exercised_because": fault_note,
+                           "what": "os.CreateTemp in an immutable package directory (chattr +i), tmpFile.Write on a full 64k tmpfs",
+                           "observed": [{"fault": c.labels, "rc": o["rc"], "diag": o["diag"], "changed": o["changed"]} for c, o in zip(fcases, fobs)]},
+        "mismatch_classes": len(seen_cls),
         "exit_status_distribution": exit_dist,
         "observed_diagnostic_classes": dict(sorted(diag_count.items())),
         "diagnostic_classes_never_observed_in_this_run": [d for d in EXPECTED_DIAGS if d not in diag_count and d not in NOT_IN_STREAM
@@ -663,7 +732,9 @@ def body(run, proof_ok):
             "packages.Load: in a module / outside a module, one package name per directory, files in name order; syntactically "
             "broken input is NOT modelled (opaque stream: only exit status, panic, timeout, directory hash are checked)",
             "file system: entries are regular files (first line), directories or dangling links; os.CreateTemp returns a fresh "
-            "name; rename over a directory fails; I/O faults enter through the oracle io and are not exercised against the binary",
+            "name; rename over a directory fails; I/O faults enter through the oracle io; two of them are exercised against the "
+            "binary (CreateTemp in an immutable directory, Write on a full tmpfs), the others (a fault in the k-th file of "
+            "several, os.Remove in Clean) are not",
             "Go's map iteration order is the parameter sigma of run (theorems: for all sigma; comparison: insertion order, the "
             "set of written files being compared only on exit 0)",
             "the stale-overlay reload of `new -getset` (LoadPackage between types) is assumed to succeed",
@@ -720,6 +791,35 @@ def replay(run, path):
         print("VIOLATION property=C18 replay=%s" % path)
         return 1
     return 0
+
+
+# ------------------------------------------------- I/O faults of the write phase
+
+def fault_cases():
+    """(Case, fault kind): os.CreateTemp fails in an immutable directory (the first fallible call of the write phase),
+    tmpFile.Write fails on a full file system (the second)"""
+    out = []
+    for sub, args, files in (("new", ["new", "-type=Order"], _new_pkg()), ("enum", ["enum", "-type=Color"], _enum_pkg([]))):
+        c = _case(sub, list(args), files)
+        c.fault_at, c.labels = 0, ["fault:immutable_directory"]
+        out.append((c, "immutable"))
+        c = _case(sub, list(args), files)
+        c.fault_at, c.labels = 1, ["fault:full_file_system"]
+        out.append((c, "full"))
+    return out
+
+
+def run_fault_cases(run, world):
+    """returns (cases, observations, reason why they could not be exercised or None)"""
+    cs, obs = [], []
+    for n, (c, kind) in enumerate(fault_cases()):
+        try:
+            o, _ = world.execute(c, "f%03d" % n, fault=kind)
+        except Exception as e:                      # no CAP_SYS_ADMIN / CAP_LINUX_IMMUTABLE here
+            return [], [], "fault injection unavailable: %s" % str(e)[:200]
+        cs.append(c)
+        obs.append(o)
+    return cs, obs, None
 
 
 # ------------------------------------------------- result lists of every small arity
